@@ -1,6 +1,6 @@
 # setup: parse every specification with SANY (nothing that depends on /repo is pre-built:
 # every check rebuilds its replayers from the current working tree)
-SPECS := $(wildcard specs/*.tla)
+SPECS := $(addprefix specs/,$(shell cat specs/SPECS.list))
 setup:
 	@mkdir -p build evidence replays
 	@fail=0; for s in $(SPECS); do \
